@@ -289,3 +289,54 @@ func ruleDirectIOAligned(r *Report) {
 	}
 	_ = p
 }
+
+// R-sticky-write-error (C17, C02, C07, C04): the vendored buffered writer remembers the first error of the underlying
+// writer (b.err) and refuses everything after it. That is what keeps a WAL file from growing behind a torn record: a Put
+// whose record was cut (EFBIG, ENOSPC in the middle of a large direct write) is rejected — and so is every later one, until
+// the file is rotated. A write error that is only returned lets later records be acknowledged behind the torn one; recovery
+// reads them as the torn record's payload and drops them.
+func ruleStickyWriteError(r *Report) {
+	const rule = "sticky-write-error"
+	r.Rule(rule, 2, "every call of the underlying writer's Write in recordio.Writer stores its error into the writer's sticky err field (so that all later writes are refused)")
+	p := r.P
+	n := 0
+	for _, fn := range p.FuncsOfPkg("recordio") {
+		if fn.Signature.Recv() == nil || !strings.HasSuffix(typeShort(fn.Signature.Recv().Type()), "recordio.Writer") {
+			continue
+		}
+		eachInstr(fn, func(s Site) {
+			c, ok := s.Instr.(*ssa.Call)
+			if !ok || !c.Call.IsInvoke() || c.Call.Method.Name() != "Write" {
+				return
+			}
+			if t, f, _, isF := loadOfField(c.Call.Value); !isF || t != "recordio.Writer" || f != "wr" {
+				return
+			}
+			n++
+			r.Saw(fn)
+			key := uniqKey(r, rule+"/"+FuncKey(fn))
+			isErrOfCall := func(x ssa.Value) bool {
+				ex, isE := x.(*ssa.Extract)
+				return isE && ex.Tuple == ssa.Value(c) && ex.Index == 1
+			}
+			stored := false
+			eachInstr(fn, func(t Site) {
+				st, isS := t.Instr.(*ssa.Store)
+				if !isS {
+					return
+				}
+				if ty, f, _, isF := fieldAddrName(st.Addr); isF && ty == "recordio.Writer" && f == "err" && valueDependsOn(st.Val, isErrOfCall) {
+					stored = true
+				}
+			})
+			if stored {
+				r.OK(rule, key, s.Pos(), "the error of the underlying write becomes the writer's sticky error")
+			} else {
+				r.Bad(rule, key, s.Pos(), "the error of the underlying write is returned but not remembered: after a large record was cut by EFBIG / ENOSPC (rejected correctly), later appends to the same file succeed behind the torn record and are acknowledged; recovery takes them for the torn record's payload and silently drops them")
+			}
+		})
+	}
+	if n == 0 {
+		r.Missing(rule, rule+"/none", "no write to the underlying writer found in recordio.Writer")
+	}
+}
